@@ -88,17 +88,33 @@ class CmsDriver:
                 return self.verify(f"after over_remove({k!r},{n})")
         if kind == "remove" and (self.cls == "hh" or self.true[k] <= 0):
             kind, op = "add", ["add", op[1], 1 + op[2] % 3]
+        self.nops = getattr(self, "nops", 0) + 1
+        alt = self.nops % 3 == 0  # every third update goes through the precomputed-hash entry points
+        if alt:
+            self.feats.add("alt_api")
+        if self.cls in ("hh", "st") and self.nops % 7 == 0:
+            self._refused()
         if kind == "add":
             n = op[2]
             if self.total + n >= 2 ** 31 - 1:
                 n = 1
-            r = ctx.call(self.noexc, o.add, k, n)
+            if not alt:
+                r = ctx.call(self.noexc, o.add, k, n)
+            elif self.cls == "cms":
+                r = ctx.call(self.noexc, o.add_alt, o.hashes(k), n)
+            else:
+                r = ctx.call(self.noexc, o.add_alt, k, o.hashes(k), n)
             self.true[k] += n
             self.total += n
             self.ever.add(k)
         else:
             n = 1 + op[2] % self.true[k]
-            r = ctx.call(self.noexc, o.remove, k, n)
+            if not alt:
+                r = ctx.call(self.noexc, o.remove, k, n)
+            elif self.cls == "cms":
+                r = ctx.call(self.noexc, o.remove_alt, o.hashes(k), n)
+            else:
+                r = ctx.call(self.noexc, o.remove_alt, k, o.hashes(k), n)
             self.true[k] -= n
             self.total -= n
             self.feats.add("remove")
@@ -118,6 +134,23 @@ class CmsDriver:
             c = ctx.call(self.noexc, o.check, k)
             ctx.check(self._o("retval"), r == c, lambda: f"{kind}({k!r},{n}) returned {r} but check says {c}")
         self.verify(f"after {kind}({k!r},{n})")
+
+    def _refused(self):
+        """documented refusals: the caller carries on afterwards, nothing may have changed"""
+        from probables.exceptions import NotSupportedError
+        ctx, o = self.ctx, self.obj
+        before = (bytes(o), o.elements_added, dict(o.heavy_hitters) if self.cls == "hh" else dict(o.meets_threshold))
+        if self.cls == "hh":
+            st_, _ = ctx.lib(self.noexc, o.remove, self.pool[0], 1, allow=(NotSupportedError,))
+        else:
+            st_ = "exc"
+        st2, _ = ctx.lib(self.noexc, o.join, o, allow=(NotSupportedError,))
+        after = (bytes(o), o.elements_added, dict(o.heavy_hitters) if self.cls == "hh" else dict(o.meets_threshold))
+        name = self._o("hh") if self.cls == "hh" else self._o("st")
+        if name:
+            ctx.check(name, st_ == "exc" and st2 == "exc", "remove on HeavyHitters / join on a tracking sketch was not refused")
+            ctx.check(name, before == after, "a refused remove/join changed the sketch or its table")
+        self.feats.add("refused_op")
 
     def _ctor(self):
         from probables import CountMinSketch, HeavyHitters, StreamThreshold
@@ -170,6 +203,7 @@ class CmsDriver:
             for k in self.pool:
                 c = ctx.call(self.noexc, o.check, k)
                 if b:
+                    ctx.check(b, ctx.call(self.noexc, o.check_alt, o.hashes(k)) == c, lambda: f"{what}: check_alt(hashes({k!r})) differs from check")
                     ctx.check(b, self.true[k] <= c, lambda: f"{what}: check({k!r}) = {c} below the true count {self.true[k]}")
                     ctx.check(b, c <= ea, lambda: f"{what}: check({k!r}) = {c} above the total {ea}")
                     ctx.check(b, ((k in o) is True) == (c != 0), f"{what}: `in` disagrees with check")
